@@ -170,3 +170,18 @@ func vH_FP_glue(data []byte) {
 		vAssert(vGlueOverflows(data[:end]), "C04.glue-range-error-only-on-overflow")
 	}
 }
+
+// ---- C04 tier 5: the multi-precision fallback on its own ------------------------
+func vH_FP_slow(data []byte) {
+	var d decimal
+	if !d.set(data) {
+		return
+	}
+	vReach("C04.slow-set")
+	b, ovf := d.floatBits()
+	vReach("C04.slow-returned")
+	vAssert(ovf == vGlueOverflows(data), "C04.slow-overflow-flag")
+	if !ovf {
+		vAssertGlueValue(data, b, "C04.slow-value")
+	}
+}
